@@ -672,6 +672,34 @@ func (f *frame) autoInductionFacts(li *loopInfo, phis []*ssa.Phi, hv, entry map[
 		}
 		// a range index over a slice/array/string is below the length, which is at most 2^62
 		f.c.assume(implies(reach, and(ge(t, intLit(-1)), lt(t, Term{"4611686018427387904", SInt}))))
+		// go/ssa's range loops: header is  i = phi+1; if i < n  with n (the length) computed before the
+		// loop. phi starts at -1 and is only advanced to i when i < n held, so phi+1 <= n at the header.
+		for _, in := range li.header.Instrs {
+			cmp, ok := in.(*ssa.BinOp)
+			if !ok || cmp.Op != token.LSS {
+				continue
+			}
+			inc, ok := cmp.X.(*ssa.BinOp)
+			if !ok || inc.Op != token.ADD || inc.X != ssa.Value(p) {
+				continue
+			}
+			if k, isConst := inc.Y.(*ssa.Const); !isConst || k.Int64() != 1 {
+				continue
+			}
+			if ni, isInstr := cmp.Y.(ssa.Instruction); isInstr && li.blocks[ni.Block()] {
+				continue
+			}
+			if call, isCall := cmp.Y.(*ssa.Call); !isCall {
+				continue
+			} else if b, isB := call.Call.Value.(*ssa.Builtin); !isB || b.Name() != "len" {
+				continue
+			}
+			if nv, have := f.vals[cmp.Y]; have {
+				if n, ok := nv.(Term); ok {
+					f.c.assume(implies(reach, and(le(add(t, tOne), n), ge(n, tZero))))
+				}
+			}
+		}
 	}
 }
 
